@@ -18,6 +18,7 @@ CONSTANT RSets      \* sequence of compiled rule sets (FlexRules!Compile)
 
 VARIABLES
   rs,      \* index of the rule set this scanner was generated from
+  inited,  \* yylex() has been called (the first call creates the first buffer if there is none)
   opt,     \* [interactive, array, lno, bolneeded, rejectmode, bufsize, strictread, reentrant, userwrap]
   \* ---- input sources and buffers
   files,   \* files[f]: bytes of input source f not yet delivered by a read
@@ -48,7 +49,7 @@ VARIABLES
 bvars == <<files, yyin, cur, bstack, saved, fid, fresh, buf, eof, bol>>
 cvars == <<sc, stk>>
 kvars == <<text, pfx, more, cands, buf0, bol0, line0, eaten>>
-svars == <<rs, opt, bvars, cvars, lineno, kvars, phase, wfrom, switched, hist>>
+svars == <<rs, inited, opt, bvars, cvars, lineno, kvars, phase, wfrom, switched, hist>>
 
 R == RSets[rs]
 NRules == Len(R.rules)          \* including the default rule (= NRules)
@@ -82,7 +83,7 @@ Parked == IF cur = 0 THEN saved ELSE (cur :> LiveRec) @@ saved
 
 \* ------------------------------------------------------------------ actions
 SInit ==
-  /\ rs = 1 /\ opt = [interactive |-> TRUE, array |-> FALSE, lno |-> TRUE, bolneeded |-> TRUE,
+  /\ rs = 1 /\ inited = FALSE /\ opt = [interactive |-> TRUE, array |-> FALSE, lno |-> TRUE, bolneeded |-> TRUE,
                       rejectmode |-> FALSE, bufsize |-> 0, strictread |-> TRUE, reentrant |-> FALSE,
                       userwrap |-> FALSE]
   /\ files = <<>> /\ yyin = 1 /\ cur = 1 /\ bstack = <<1>> /\ saved = <<>> /\ fid = 1 /\ fresh = TRUE
@@ -93,17 +94,25 @@ SInit ==
 
 \* a fresh scanner; fs = the input sources (fs[1] is what yyin designates first)
 Reset(k, fs, o) ==
-  /\ rs' = k /\ opt' = o
-  /\ files' = fs /\ yyin' = 1 /\ cur' = 1 /\ bstack' = <<1>> /\ saved' = <<>> /\ fid' = 1 /\ fresh' = TRUE
+  /\ rs' = k /\ opt' = o /\ inited' = FALSE
+  \* a buffer exists from the start only if the caller made one (bufsize > 0)
+  /\ files' = fs /\ yyin' = 1 /\ saved' = <<>> /\ fid' = 1 /\ fresh' = TRUE
+  /\ cur' = (IF o.bufsize > 0 THEN 1 ELSE 0) /\ bstack' = (IF o.bufsize > 0 THEN <<1>> ELSE <<>>)
   /\ buf' = <<>> /\ eof' = FALSE /\ bol' = TRUE
   /\ sc' = 0 /\ stk' = <<>> /\ lineno' = 1
   /\ text' = <<>> /\ pfx' = <<>> /\ more' = FALSE /\ cands' = <<>> /\ buf0' = <<>> /\ bol0' = TRUE /\ line0' = 1 /\ eaten' = 0
   /\ phase' = "out" /\ wfrom' = "scan" /\ switched' = FALSE /\ hist' = <<>>
 
-\* the caller calls yylex()
+\* the caller calls yylex(); the very first call creates a buffer on yyin if
+\* there is no current buffer yet
 Call ==
-  /\ phase \in {"out", "done"} /\ phase' = "scan"
-  /\ UNCHANGED <<rs, opt, bvars, cvars, lineno, kvars, wfrom, switched, hist>>
+  /\ phase \in {"out", "done"} /\ phase' = "scan" /\ inited' = TRUE
+  /\ IF cur = 0 /\ ~inited
+     THEN /\ cur' = 1 /\ bstack' = <<1>> /\ buf' = <<>> /\ eof' = FALSE /\ bol' = TRUE /\ fid' = yyin /\ fresh' = TRUE
+          /\ lineno' = IF opt.reentrant THEN 1 ELSE lineno
+          /\ UNCHANGED <<files, yyin, saved>>
+     ELSE /\ cur # 0 /\ UNCHANGED <<bvars, lineno>>
+  /\ UNCHANGED <<rs, opt, cvars, kvars, wfrom, switched, hist>>
 
 \* the current buffer's source delivers its next `got` bytes (0 = end of
 \* input).  While scanning this may happen only if the match is not yet
@@ -118,7 +127,7 @@ Read(got) ==
   /\ files' = [files EXCEPT ![ReadFile] = SubSeq(@, got + 1, Len(@))]
   /\ buf' = buf \o SubSeq(files[ReadFile], 1, got) /\ eof' = (got = 0)
   /\ fid' = ReadFile /\ fresh' = FALSE
-  /\ UNCHANGED <<rs, opt, yyin, cur, bstack, saved, bol, cvars, lineno, kvars, phase, wfrom, switched, hist>>
+  /\ UNCHANGED <<rs, inited, opt, yyin, cur, bstack, saved, bol, cvars, lineno, kvars, phase, wfrom, switched, hist>>
 
 \* candidate c = <<rule, match length>> taken against the token-start text w
 Take(c, w, b0, l0, h) ==
@@ -143,12 +152,12 @@ Match(rule, h) ==
         THEN /\ phase' = "scan" /\ pfx' = <<>> /\ more' = FALSE /\ cands' = <<>>
         ELSE /\ phase' = "act" /\ cands' = Tail(cs) /\ UNCHANGED <<pfx, more>>
   /\ hist' = Append(hist, <<"tok", rule, text'>>) /\ eaten' = 0
-  /\ UNCHANGED <<rs, opt, files, yyin, cur, bstack, saved, fid, fresh, eof, cvars, wfrom, switched>>
+  /\ UNCHANGED <<rs, inited, opt, files, yyin, cur, bstack, saved, fid, fresh, eof, cvars, wfrom, switched>>
 
 Reject ==
   /\ phase = "act" /\ cands # <<>>
   /\ phase' = "rej"
-  /\ UNCHANGED <<rs, opt, bvars, cvars, lineno, kvars, wfrom, switched, hist>>
+  /\ UNCHANGED <<rs, inited, opt, bvars, cvars, lineno, kvars, wfrom, switched, hist>>
 
 \* the next-best alternative at the same position
 MatchAgain(rule, h) ==
@@ -158,16 +167,16 @@ MatchAgain(rule, h) ==
      THEN /\ phase' = "scan" /\ pfx' = <<>> /\ more' = FALSE /\ cands' = <<>>
      ELSE /\ phase' = "act" /\ cands' = Tail(cands) /\ UNCHANGED <<pfx, more>>
   /\ hist' = Append(hist, <<"tok", rule, text'>>)
-  /\ UNCHANGED <<rs, opt, files, yyin, cur, bstack, saved, fid, fresh, eof, cvars, buf0, bol0, line0, eaten, wfrom, switched>>
+  /\ UNCHANGED <<rs, inited, opt, files, yyin, cur, bstack, saved, fid, fresh, eof, cvars, buf0, bol0, line0, eaten, wfrom, switched>>
 
 ActEnd ==
   /\ phase = "act" /\ phase' = "scan" /\ EndEffects
-  /\ UNCHANGED <<rs, opt, bvars, cvars, lineno, text, buf0, bol0, line0, eaten, wfrom, switched, hist>>
+  /\ UNCHANGED <<rs, inited, opt, bvars, cvars, lineno, text, buf0, bol0, line0, eaten, wfrom, switched, hist>>
 
 \* the action returns to the caller of yylex
 Return ==
   /\ phase = "act" /\ phase' = "out" /\ EndEffects
-  /\ UNCHANGED <<rs, opt, bvars, cvars, lineno, text, buf0, bol0, line0, eaten, wfrom, switched, hist>>
+  /\ UNCHANGED <<rs, inited, opt, bvars, cvars, lineno, text, buf0, bol0, line0, eaten, wfrom, switched, hist>>
 
 \* yyless(n): keep the first n bytes of yytext, rescan the rest
 Less(n) ==
@@ -176,11 +185,11 @@ Less(n) ==
   /\ buf' = SubSeq(text, n + 1, Len(text)) \o buf
   /\ lineno' = IF opt.lno THEN lineno - CountNL(SubSeq(text, n + 1, Len(text))) ELSE lineno
   /\ hist' = Append(hist, <<"less", n>>)
-  /\ UNCHANGED <<rs, opt, files, yyin, cur, bstack, saved, fid, fresh, eof, bol, cvars, pfx, more, cands, buf0, bol0, line0, eaten, phase, wfrom, switched>>
+  /\ UNCHANGED <<rs, inited, opt, files, yyin, cur, bstack, saved, fid, fresh, eof, bol, cvars, pfx, more, cands, buf0, bol0, line0, eaten, phase, wfrom, switched>>
 
 More ==
   /\ phase = "act" /\ more' = TRUE
-  /\ UNCHANGED <<rs, opt, bvars, cvars, lineno, text, pfx, cands, buf0, bol0, line0, eaten, phase, wfrom, switched, hist>>
+  /\ UNCHANGED <<rs, inited, opt, bvars, cvars, lineno, text, pfx, cands, buf0, bol0, line0, eaten, phase, wfrom, switched, hist>>
 
 \* yyunput(c): c will be the next byte read
 Unput(c) ==
@@ -188,7 +197,7 @@ Unput(c) ==
   /\ buf' = <<c>> \o buf
   /\ lineno' = IF opt.lno /\ c = NL THEN lineno - 1 ELSE lineno
   /\ hist' = Append(hist, <<"unput", c>>)
-  /\ UNCHANGED <<rs, opt, files, yyin, cur, bstack, saved, fid, fresh, eof, bol, cvars, kvars, phase, wfrom, switched>>
+  /\ UNCHANGED <<rs, inited, opt, files, yyin, cur, bstack, saved, fid, fresh, eof, bol, cvars, kvars, phase, wfrom, switched>>
 
 \* yyinput() returns the next byte ...
 Input(c) ==
@@ -197,7 +206,7 @@ Input(c) ==
   /\ lineno' = IF opt.lno /\ c = NL THEN lineno + 1 ELSE lineno
   /\ bol' = IF opt.bolneeded THEN c = NL ELSE bol
   /\ hist' = Append(hist, <<"input", c>>) /\ eaten' = eaten + 1
-  /\ UNCHANGED <<rs, opt, files, yyin, cur, bstack, saved, fid, fresh, eof, cvars, text, pfx, more, cands, buf0, bol0, line0, phase, wfrom, switched>>
+  /\ UNCHANGED <<rs, inited, opt, files, yyin, cur, bstack, saved, fid, fresh, eof, cvars, text, pfx, more, cands, buf0, bol0, line0, phase, wfrom, switched>>
 
 \* A file-backed buffer that reaches end of input is restarted on yyin at
 \* once (before yywrap is consulted): it is "new" again, what comes next
@@ -214,25 +223,25 @@ InputEnd ==
   /\ IF opt.userwrap THEN wfrom = "act" /\ UNCHANGED <<bol, eof, fresh, fid>>
      ELSE AtEnd /\ EofRestart
   /\ wfrom' = "scan"
-  /\ UNCHANGED <<rs, opt, files, yyin, cur, bstack, saved, buf, cvars, lineno, kvars, phase, switched, hist>>
+  /\ UNCHANGED <<rs, inited, opt, files, yyin, cur, bstack, saved, buf, cvars, lineno, kvars, phase, switched, hist>>
 
 Begin(s) ==
   /\ sc' = s
-  /\ UNCHANGED <<rs, opt, bvars, stk, lineno, kvars, phase, wfrom, switched, hist>>
+  /\ UNCHANGED <<rs, inited, opt, bvars, stk, lineno, kvars, phase, wfrom, switched, hist>>
 Push(s) ==
   /\ stk' = Append(stk, sc) /\ sc' = s
-  /\ UNCHANGED <<rs, opt, bvars, lineno, kvars, phase, wfrom, switched, hist>>
+  /\ UNCHANGED <<rs, inited, opt, bvars, lineno, kvars, phase, wfrom, switched, hist>>
 Pop ==
   /\ stk # <<>> /\ sc' = Last(stk) /\ stk' = Front(stk)
-  /\ UNCHANGED <<rs, opt, bvars, lineno, kvars, phase, wfrom, switched, hist>>
+  /\ UNCHANGED <<rs, inited, opt, bvars, lineno, kvars, phase, wfrom, switched, hist>>
 \* popping the empty stack is a reported fatal error
 PopUnderflow ==
   /\ stk = <<>> /\ phase' = "fatal"
-  /\ UNCHANGED <<rs, opt, bvars, cvars, lineno, kvars, wfrom, switched, hist>>
+  /\ UNCHANGED <<rs, inited, opt, bvars, cvars, lineno, kvars, wfrom, switched, hist>>
 TopIs(v) == v = (IF stk = <<>> THEN sc ELSE Last(stk))
 SetBol(v) ==
   /\ cur # 0 /\ bol' = v
-  /\ UNCHANGED <<rs, opt, files, yyin, cur, bstack, saved, fid, fresh, buf, eof, cvars, lineno, kvars, phase, wfrom, switched, hist>>
+  /\ UNCHANGED <<rs, inited, opt, files, yyin, cur, bstack, saved, fid, fresh, buf, eof, cvars, lineno, kvars, phase, wfrom, switched, hist>>
 
 \* ------------------------------------------------------------------ end of input
 \* Nothing buffered and the source exhausted.  Without a user yywrap the
@@ -243,7 +252,7 @@ AtEof(k) ==
   /\ k = EofRule(R, sc + 1)
   /\ EofRestart
   /\ phase' = "done" /\ pfx' = <<>> /\ more' = FALSE /\ cands' = <<>>
-  /\ UNCHANGED <<rs, opt, files, yyin, cur, bstack, saved, buf, cvars, lineno, text, buf0, bol0, line0, eaten, wfrom, switched, hist>>
+  /\ UNCHANGED <<rs, inited, opt, files, yyin, cur, bstack, saved, buf, cvars, lineno, text, buf0, bol0, line0, eaten, wfrom, switched, hist>>
 
 \* ... with one, yywrap() is consulted first (from the matching loop or from
 \* yyinput()), only when nothing at all is pending
@@ -251,25 +260,25 @@ WrapEnter ==
   /\ opt.userwrap /\ phase \in {"scan", "act"} /\ AtEnd
   /\ EofRestart
   /\ wfrom' = phase /\ phase' = "wrap" /\ switched' = FALSE
-  /\ UNCHANGED <<rs, opt, files, yyin, cur, bstack, saved, buf, cvars, lineno, kvars, hist>>
+  /\ UNCHANGED <<rs, inited, opt, files, yyin, cur, bstack, saved, buf, cvars, lineno, kvars, hist>>
 \* yywrap() returned 1: end of input for good.  From the matching loop the
 \* <<EOF>> action k of the current condition runs next (EofAct); yyinput()
 \* returns its end-of-input value to the action (InputEnd).
 WrapRet1 ==
   /\ phase = "wrap"
   /\ phase' = IF wfrom = "scan" THEN "eofact" ELSE "act"
-  /\ UNCHANGED <<rs, opt, bvars, cvars, lineno, kvars, wfrom, switched, hist>>
+  /\ UNCHANGED <<rs, inited, opt, bvars, cvars, lineno, kvars, wfrom, switched, hist>>
 EofAct(k) ==
   /\ phase = "eofact" /\ k = EofRule(R, sc + 1)
   /\ phase' = "done" /\ pfx' = <<>> /\ more' = FALSE /\ cands' = <<>>
-  /\ UNCHANGED <<rs, opt, bvars, cvars, lineno, text, buf0, bol0, line0, eaten, wfrom, switched, hist>>
+  /\ UNCHANGED <<rs, inited, opt, bvars, cvars, lineno, text, buf0, bol0, line0, eaten, wfrom, switched, hist>>
 \* yywrap() returned 0: more input.  If it did not switch buffers itself, the
 \* current buffer is restarted on whatever yyin designates now.
 WrapRet0 ==
   /\ phase = "wrap" /\ phase' = wfrom /\ wfrom' = "scan"
   /\ IF switched THEN UNCHANGED <<buf, eof, bol, fid, fresh>>
      ELSE /\ buf' = <<>> /\ eof' = FALSE /\ bol' = TRUE /\ fid' = yyin /\ fresh' = TRUE
-  /\ UNCHANGED <<rs, opt, files, yyin, cur, bstack, saved, cvars, lineno, kvars, switched, hist>>
+  /\ UNCHANGED <<rs, inited, opt, files, yyin, cur, bstack, saved, cvars, lineno, kvars, switched, hist>>
 
 \* ------------------------------------------------------------------ buffer API
 \* (callable between yylex() calls, from actions and from yywrap)
@@ -277,13 +286,13 @@ BufPhase == phase \in {"out", "done", "act", "wrap"}
 
 SetYyin(f) ==
   /\ yyin' = f
-  /\ UNCHANGED <<rs, opt, files, cur, bstack, saved, fid, fresh, buf, eof, bol, cvars, lineno, kvars, phase, wfrom, switched, hist>>
+  /\ UNCHANGED <<rs, inited, opt, files, cur, bstack, saved, fid, fresh, buf, eof, bol, cvars, lineno, kvars, phase, wfrom, switched, hist>>
 
 \* yy_create_buffer(file f): a new, not yet current buffer
 NewBuf(b, f) ==
   /\ BufPhase /\ ~Exists(b) /\ b # 0
   /\ saved' = (b :> NewRec(f)) @@ saved
-  /\ UNCHANGED <<rs, opt, files, yyin, cur, bstack, fid, fresh, buf, eof, bol, cvars, lineno, kvars, phase, wfrom, switched, hist>>
+  /\ UNCHANGED <<rs, inited, opt, files, yyin, cur, bstack, fid, fresh, buf, eof, bol, cvars, lineno, kvars, phase, wfrom, switched, hist>>
 
 \* make b current in place of the current buffer, which keeps its state
 SwitchTo(b) ==
@@ -294,7 +303,7 @@ SwitchTo(b) ==
           /\ bstack' = IF bstack = <<>> THEN <<b>> ELSE Front(bstack) \o <<b>>
           /\ yyin' = saved[b].fid
   /\ switched' = (switched \/ b # cur)
-  /\ UNCHANGED <<rs, opt, files, cvars, kvars, phase, wfrom, hist>>
+  /\ UNCHANGED <<rs, inited, opt, files, cvars, kvars, phase, wfrom, hist>>
 
 \* yypush_buffer_state(b): b becomes current on top of the current buffer
 PushBuf(b) ==
@@ -304,7 +313,7 @@ PushBuf(b) ==
   /\ bstack' = Append(bstack, b)
   /\ yyin' = saved[b].fid
   /\ switched' = TRUE
-  /\ UNCHANGED <<rs, opt, files, cvars, kvars, phase, wfrom, hist>>
+  /\ UNCHANGED <<rs, inited, opt, files, cvars, kvars, phase, wfrom, hist>>
 
 \* yypop_buffer_state(): the current buffer is deleted, the one pushed before
 \* it (if any) becomes current again, exactly as it was
@@ -318,7 +327,7 @@ PopBuf ==
           /\ switched' = TRUE
      ELSE /\ cur' = 0 /\ buf' = <<>> /\ eof' = FALSE /\ fid' = 0 /\ fresh' = FALSE
           /\ UNCHANGED <<saved, bol, lineno, yyin, switched>>
-  /\ UNCHANGED <<rs, opt, files, cvars, kvars, phase, wfrom, hist>>
+  /\ UNCHANGED <<rs, inited, opt, files, cvars, kvars, phase, wfrom, hist>>
 
 \* yy_scan_string / yy_scan_bytes / yy_scan_buffer: a buffer over exactly
 \* these bytes, made current
@@ -328,7 +337,7 @@ ScanMem(b, bytes) ==
   /\ saved' = Parked
   /\ bstack' = IF bstack = <<>> THEN <<b>> ELSE Front(bstack) \o <<b>>
   /\ switched' = TRUE /\ yyin' = 0       \* an in-memory buffer has no file: yyin designates none
-  /\ UNCHANGED <<rs, opt, files, cvars, kvars, phase, wfrom, hist>>
+  /\ UNCHANGED <<rs, inited, opt, files, cvars, kvars, phase, wfrom, hist>>
 
 \* yy_flush_buffer(b): only the already-buffered text is discarded
 Flush(b) ==
@@ -340,20 +349,20 @@ Flush(b) ==
              saved' = [saved EXCEPT ![b] = [r EXCEPT !.buf = <<>>, !.bol = TRUE,
                                                      !.eof = (r.fid = 0 /\ ~r.fresh), !.fresh = (r.fid # 0 \/ r.fresh)]]
           /\ UNCHANGED <<buf, bol, eof, fresh>>
-  /\ UNCHANGED <<rs, opt, files, yyin, cur, bstack, fid, cvars, lineno, kvars, phase, wfrom, switched, hist>>
+  /\ UNCHANGED <<rs, inited, opt, files, yyin, cur, bstack, fid, cvars, lineno, kvars, phase, wfrom, switched, hist>>
 
 \* yy_delete_buffer(b) of a buffer that is not current
 Delete(b) ==
   /\ BufPhase /\ b # cur /\ b \in DOMAIN saved
   /\ saved' = Without(saved, b)
-  /\ UNCHANGED <<rs, opt, files, yyin, cur, bstack, fid, fresh, buf, eof, bol, cvars, lineno, kvars, phase, wfrom, switched, hist>>
+  /\ UNCHANGED <<rs, inited, opt, files, yyin, cur, bstack, fid, fresh, buf, eof, bol, cvars, lineno, kvars, phase, wfrom, switched, hist>>
 
 \* yyrestart(f): the current buffer forgets what it had buffered and reads f
 \* from now on; the start condition is not touched
 Restart(f) ==
   /\ BufPhase /\ cur # 0
   /\ buf' = <<>> /\ eof' = FALSE /\ bol' = TRUE /\ fid' = f /\ fresh' = TRUE /\ yyin' = f
-  /\ UNCHANGED <<rs, opt, files, cur, bstack, saved, cvars, lineno, kvars, phase, wfrom, switched, hist>>
+  /\ UNCHANGED <<rs, inited, opt, files, cur, bstack, saved, cvars, lineno, kvars, phase, wfrom, switched, hist>>
 
 \* ------------------------------------------------------------------ documented fatal errors
 InBufPfx == IF opt.array THEN 0 ELSE Len(pfx)
@@ -362,9 +371,9 @@ FatalRejectOverflow ==   \* REJECT scanner whose token does not fit its non-grow
   /\ \/ phase = "scan" /\ InBufPfx + Len(buf) + 1 >= opt.bufsize
      \/ phase = "act" /\ buf = <<>> /\ Len(text) + eaten + 1 >= opt.bufsize   \* refill asked by yyinput()
   /\ phase' = "fatal"
-  /\ UNCHANGED <<rs, opt, bvars, cvars, lineno, kvars, wfrom, switched, hist>>
+  /\ UNCHANGED <<rs, inited, opt, bvars, cvars, lineno, kvars, wfrom, switched, hist>>
 FatalPushback ==         \* yyunput() beyond the push-back capacity (the buffer is full of pending text)
   /\ phase = "act" /\ opt.bufsize > 0 /\ Len(buf) + 3 >= opt.bufsize
   /\ phase' = "fatal"
-  /\ UNCHANGED <<rs, opt, bvars, cvars, lineno, kvars, wfrom, switched, hist>>
+  /\ UNCHANGED <<rs, inited, opt, bvars, cvars, lineno, kvars, wfrom, switched, hist>>
 =============================================================================
